@@ -46,6 +46,9 @@ SRC = [
   dict(file="AcraNetwork/IRIG106/Chapter11/__init__.py", lean="Chapter11", func="PTPTime.to_pinksheet_rtc",
        params={"self": _PTP}, ranges={"self.seconds": (0, 2**32 - 1), "self.nanoseconds": (0, 2**32 - 1)},
        prop="C15", theorem="src_PTPTime_to_pinksheet_rtc"),
+  # `int(val / dec) % 10` is a binary64 division: exact to truncation while val + dec < 2^53; range as hypothesis
+  dict(file="AcraNetwork/IRIG106/Chapter11/TimeDataFormat.py", lean="TimeDataFormat", func="double_digits_to_bcd",
+       ranges={"val": (0, 2**32 - 1)}, prop="C15", theorem="src_double_digits_to_bcd"),
   dict(file="AcraNetwork/IRIG106/Chapter11/__init__.py", lean="Chapter11", func="get_checksum_buf",
        prop="C07", theorem="src_get_checksum_buf"),
   dict(file="AcraNetwork/IRIG106/Chapter11/__init__.py", lean="Chapter11", func="get_checksum_byte_buf",
